@@ -99,7 +99,7 @@ pub fn run(seed: u64, thorough: bool, tw: &mut TraceWriter) -> Stats {
 
     // (i) all ordered pairs over one address, boundary incarnations, from several starting rows
     let small = universe(&[2], &[0, 1, 2], &[0, 1, 65534, 65535]);
-    let nstarts = if thorough { small.len() } else { 5 };
+    let nstarts = if thorough { 10 } else { 5 };
     let mut starts: Vec<Option<Member<Id>>> = vec![None];
     let mut pool = small.clone();
     pool.shuffle(&mut r);
@@ -142,7 +142,7 @@ pub fn run(seed: u64, thorough: bool, tw: &mut TraceWriter) -> Stats {
 
     // (ii) random multisets in every order, with duplications, incl. own-address generations
     let big = universe(&[2, 3, 4, 1], &[0, 1, 2], &[0, 1, 2, 65534, 65535]);
-    let nsets = if thorough { 400 } else { 40 };
+    let nsets = if thorough { 80 } else { 40 };
     for _ in 0..nsets {
         let k = r.random_range(2..=if thorough { 6 } else { 5 });
         // bias: several updates about the same address
@@ -157,7 +157,7 @@ pub fn run(seed: u64, thorough: bool, tw: &mut TraceWriter) -> Stats {
         tw.env("reset", 0, json!({"run": run_no, "driver": "c01"}));
         run_no += 1;
         let mut finals = vec![];
-        let perms = permutations(&ms, if thorough { 720 } else { 120 }, &mut r);
+        let perms = permutations(&ms, if thorough { 240 } else { 120 }, &mut r);
         for (pi, p) in perms.iter().enumerate() {
             let mut n = mk(pi, own, r.random(), tw);
             let mut seq = p.clone();
@@ -185,7 +185,7 @@ pub fn run(seed: u64, thorough: bool, tw: &mut TraceWriter) -> Stats {
     }
 
     // (iii) re-applying the own full state; (iv) two-way exchange
-    let nex = if thorough { 2000 } else { 200 };
+    let nex = if thorough { 800 } else { 200 };
     for _ in 0..nex {
         tw.env("reset", 0, json!({"run": run_no, "driver": "c01"}));
         run_no += 1;
